@@ -201,6 +201,26 @@ func runC20(c *ctx) {
 			}()
 			c.note(fmt.Sprintf("addr/%x/%x", a, id), true)
 			c.count(fmt.Sprintf("address/len%02d", len(a)))
+			// independent oracle: the documented classification rules, written out on the bytes
+			allEq := func(x []byte, v byte) bool {
+				for _, b := range x {
+					if b != v {
+						return false
+					}
+				}
+				return true
+			}
+			var want [5]bool
+			want[0] = len(a) >= 30 && allEq(a[:30], 255)
+			want[2] = allEq(a, 0)
+			want[1] = len(a) > 10 && (want[2] || allEq(a[:8], 0))
+			want[3] = len(id) > 0 && allEq(id, 255)
+			want[4] = len(a) > 25 && want[3] && want[1] && allEq(a[10:25], 0)
+			for k, nm := range []string{"IsSystemAccountAddress", "IsSmartContractAddress", "IsEmptyAddress", "IsMetachainIdentifier", "IsSmartContractOnMetachain"} {
+				if res[k] != want[k] {
+					c.fail("monitor", "address-rule-"+nm, fmt.Sprintf("%s(%x, id %x) = %v, the documented rule gives %v", nm, a, id, res[k], want[k]), map[string]string{"helper": nm, "input": hex.EncodeToString(a), "id": hex.EncodeToString(id)})
+				}
+			}
 			if res[4] && !res[1] {
 				c.fail("monitor", "meta-sc-not-sc", fmt.Sprintf("metachain contract address %x is not a contract address", a), map[string]string{"helper": "address", "input": hex.EncodeToString(a)})
 			}
